@@ -755,6 +755,12 @@ func (fv *FuncVC) instr(ins ssa.Instruction) {
 			nh := e.fresh(hn, e.heapSortOf(hn))
 			fv.define(eq(nh, app("store", h, id, e.zero(el))))
 			fv.st.set(hn, nh)
+			if _, isStruct := el.Underlying().(*types.Struct); isStruct && x.Heap {
+				// ghost attribute of the new object: the region it owns starts where this call started allocating
+				// (everything this call and the object's later operations allocate lies above; see region / owned)
+				e.decl("fn:obj_minid", "(declare-fun obj_minid (Int) Int)")
+				fv.assume(eq(app("obj_minid", id), fv.alloc0))
+			}
 		}
 		fv.vals[x] = id
 	case *ssa.FieldAddr:
@@ -779,6 +785,11 @@ func (fv *FuncVC) instr(ins ssa.Instruction) {
 			s := fv.val(x.X)
 			fv.oblige("bounds", "bounds", panicProps, and(app("<=", "0", idx), app("<", idx, app("s_len", s))), x.Pos(), fmt.Sprintf("index %s in range of %s", x.Index.Name(), x.X.Name()))
 			fv.addrs[x] = &Addr{elem: true, heap: e.elemHeap(u.Elem()), id: app("s_arr", s), idx: app("idx", app("s_off", s), idx), baseT: u.Elem(), ty: u.Elem()}
+			if fv.isEpType(u.Elem()) && addrUsedAsValue(x) {
+				// the element's address as a value
+				fv.declEp()
+				fv.defReg(x, app("mk_ep", app("s_arr", s), app("idx", app("s_off", s), idx)))
+			}
 		case *types.Pointer:
 			arr := u.Elem().Underlying().(*types.Array)
 			fv.oblige("bounds", "bounds", panicProps, and(app("<=", "0", idx), app("<", idx, intLit(arr.Len()))), x.Pos(), fmt.Sprintf("index %s in range of array", x.Index.Name()))
@@ -809,7 +820,7 @@ func (fv *FuncVC) instr(ins ssa.Instruction) {
 		if _, isAddr := fv.addrs[x.Addr]; !isAddr {
 			fv.nilCheck(a.id, x.Pos(), x.Addr.Name())
 		}
-		fv.oblige("frame", "frame:store", frameProps, fv.writable(a.heap, a.id), x.Pos(), fmt.Sprintf("store %s targets memory allocated by this call or listed in modifies", x.String()))
+		fv.oblige("frame", "frame:store", frameProps, fv.writableAddr(a), x.Pos(), fmt.Sprintf("store %s targets memory allocated by this call or listed in modifies", x.String()))
 		fv.writeAddr(a, fv.val(x.Val))
 		if sv := fv.immutableCellValue(x.Addr); sv != nil && len(a.path) == 0 {
 			if fv.immTerm == nil {
@@ -1014,7 +1025,7 @@ func (fv *FuncVC) unop(x *ssa.UnOp) {
 		}
 		// the heap at entry is closed: what is stored in memory allocated before the call refers only to memory
 		// allocated before the call (reads from a heap that still is the entry version)
-		if a.heap != "" && strings.HasSuffix(string(fv.heapGet(fv.st, a.heap)), "@0") {
+		if a.heap != "" && !a.dual && strings.HasSuffix(string(fv.heapGet(fv.st, a.heap)), "@0") {
 			if f := fv.wfVal(fv.val(x), x.Type(), fv.alloc0, 0); f != "true" {
 				fv.assume(implies(app("<", a.id, fv.alloc0), f))
 			}
